@@ -785,7 +785,7 @@ theorem subtableRuns_single (s : Subtable) (r : Range) (b : Buf) :
 
 /-! ### non-contextual -/
 
-theorem rangeBlock_none (rf : Array Range) (sf : Nat) (b : Buf) : rangeBlock rf sf b none = .ok (false, none) := rfl
+theorem rangeBlock_none (rf : Array Range) (sf : Nat) (b : Buf) (i : Nat) : ncRange rf sf b i none = .ok (false, none) := rfl
 
 theorem nc_loop (lk : Lookup) (rf : Array Range) (sf : Nat) (b : Buf) :
     ∀ n, n ≤ b.info.size → ∃ info', forUp n (ncStep lk rf sf) (b, none) = .ok ({ b with info := info' }, none) ∧
@@ -1366,6 +1366,242 @@ theorem rearrTransition_level2 (v : Nat) (hv : v < 16) (hv0 : v ≠ 0) (σ : Asg
   simp only [hc, if_true]
   rw [mergeClusters_level2 b _ _ hlvl, ok_bind, mergeClusters_level2 b _ _ hlvl, ok_bind, hs, he, hinfo, hcore]
   rfl
+
+/-- the compiled ranges of a chain tile the clusters [0, hi]: what `hb_aat_map_builder_t::compile` produces -/
+structure Tiles (rf : Array Range) (hi : Nat) : Prop where
+  nonempty : 0 < rf.size
+  first0 : ∀ r : Range, rf[0]? = some r → r.first = 0
+  ordered : ∀ (k : Nat) (r : Range), rf[k]? = some r → r.first ≤ r.last
+  contiguous : ∀ (k : Nat) (r r' : Range), rf[k]? = some r → rf[k + 1]? = some r' → r'.first = r.last + 1
+  lastHi : ∀ r : Range, rf[rf.size - 1]? = some r → r.last = hi
+
+theorem rdR_ok {rf : Array Range} {k : Nat} (h : k < rf.size) : rdR rf k = .ok rf[k] := by
+  simp [rdR, h]; rfl
+
+/-- `rangeDown` ends on a range that starts at or before the cluster, at or before where it started; if it
+    moved at all, the cluster lies before the next range. -/
+theorem rangeDown_spec {rf : Array Range} {hi : Nat} (ht : Tiles rf hi) (c : Nat) :
+    ∀ (fuel range : Nat), range ≤ fuel → range < rf.size →
+      ∃ k, rangeDown rf c fuel range = .ok k ∧ k ≤ range ∧ (∀ r, rf[k]? = some r → r.first ≤ c) ∧
+        (k < range → ∀ r, rf[k + 1]? = some r → c < r.first) := by
+  intro fuel
+  induction fuel with
+  | zero =>
+    intro range hr hs
+    have : range = 0 := by omega
+    subst this
+    have h0 := ht.first0 rf[0] (by simp [hs])
+    refine ⟨0, ?_, Nat.le_refl _, ?_, by omega⟩
+    · simp [rangeDown, rdR_ok hs, bind, Except.bind, h0, pure, Except.pure]
+    · intro r hr; have := ht.first0 r hr; omega
+  | succ fuel ih =>
+    intro range hr hs
+    simp only [rangeDown, rdR_ok hs, bind, Except.bind]
+    by_cases hc : c < rf[range].first
+    · simp only [hc, if_true]
+      by_cases h0 : range = 0
+      · subst h0
+        have := ht.first0 rf[0] (by simp [hs]); omega
+      · have hb : (range == 0) = false := by simp [h0]
+        simp only [hb, Bool.false_eq_true, if_false]
+        obtain ⟨k, e, hk, hf, hn⟩ := ih (range - 1) (by omega) (by omega)
+        refine ⟨k, e, by omega, hf, ?_⟩
+        intro hlt r hr'
+        by_cases hk1 : k < range - 1
+        · exact hn hk1 r hr'
+        · have : k + 1 = range := by omega
+          rw [this] at hr'
+          have : r = rf[range] := by simp [hs] at hr'; exact hr'.symm
+          subst this; exact hc
+    · simp only [hc, if_false, pure, Except.pure]
+      refine ⟨range, rfl, Nat.le_refl _, ?_, by omega⟩
+      intro r hr'
+      have : r = rf[range] := by simp [hs] at hr'; exact hr'.symm
+      subst this; omega
+
+/-- `rangeUp` ends on a range that ends at or after the cluster; if it moved, the cluster lies after the
+    previous range. -/
+theorem rangeUp_spec {rf : Array Range} {hi : Nat} (ht : Tiles rf hi) (c : Nat) (hc : c ≤ hi) :
+    ∀ (fuel range : Nat), range + fuel + 1 ≥ rf.size → range < rf.size →
+      ∃ k, rangeUp rf c fuel range = .ok k ∧ range ≤ k ∧ k < rf.size ∧ (∀ r, rf[k]? = some r → c ≤ r.last) ∧
+        (range < k → ∀ r, rf[k - 1]? = some r → r.last < c) := by
+  intro fuel
+  induction fuel with
+  | zero =>
+    intro range hr hs
+    have hlast : range = rf.size - 1 := by omega
+    have hl := ht.lastHi rf[range] (by rw [← hlast]; simp [hs])
+    refine ⟨range, ?_, Nat.le_refl _, hs, ?_, by omega⟩
+    · have : ¬ c > rf[range].last := by omega
+      simp [rangeUp, rdR_ok hs, bind, Except.bind, this, pure, Except.pure]
+    · intro r hr'
+      have : r = rf[range] := by simp [hs] at hr'; exact hr'.symm
+      subst this; omega
+  | succ fuel ih =>
+    intro range hr hs
+    simp only [rangeUp, rdR_ok hs, bind, Except.bind]
+    by_cases hgt : c > rf[range].last
+    · simp only [hgt, if_true]
+      have hs1 : range + 1 < rf.size := by
+        by_cases h : range + 1 < rf.size
+        · exact h
+        · have hlast : range = rf.size - 1 := by omega
+          have hl := ht.lastHi rf[range] (by rw [← hlast]; simp [hs])
+          omega
+      obtain ⟨k, e, hk, hks, hf, hn⟩ := ih (range + 1) (by omega) hs1
+      refine ⟨k, e, by omega, hks, hf, ?_⟩
+      intro _ r hr'
+      by_cases hk1 : range + 1 < k
+      · exact hn hk1 r hr'
+      · have : k - 1 = range := by omega
+        rw [this] at hr'
+        have : r = rf[range] := by simp [hs] at hr'; exact hr'.symm
+        subst this; exact hgt
+    · simp only [hgt, if_false, pure, Except.pure]
+      refine ⟨range, rfl, Nat.le_refl _, hs, ?_, by omega⟩
+      intro r hr'
+      have : r = rf[range] := by simp [hs] at hr'; exact hr'.symm
+      subst this; omega
+
+/-- from any starting range, `findRange` returns the range that contains the cluster. -/
+theorem findRange_spec {rf : Array Range} {hi : Nat} (ht : Tiles rf hi) (c : Nat) (hc : c ≤ hi)
+    (lr : Nat) (hlr : lr < rf.size) :
+    ∃ k, findRange rf lr c = .ok k ∧ k < rf.size ∧ ∀ r, rf[k]? = some r → r.first ≤ c ∧ c ≤ r.last := by
+  unfold findRange
+  obtain ⟨k1, e1, hk1, hf1, hn1⟩ := rangeDown_spec ht c lr lr (Nat.le_refl _) hlr
+  obtain ⟨k2, e2, hk2, hs2, hf2, hn2⟩ := rangeUp_spec ht c hc (rf.size - k1) k1 (by omega) (by omega)
+  refine ⟨k2, by simp [e1, e2, bind, Except.bind], hs2, ?_⟩
+  intro r hr
+  refine ⟨?_, hf2 r hr⟩
+  by_cases hm : k1 < k2
+  · have hprev := hn2 hm rf[k2 - 1] (by simp)
+    have := ht.contiguous (k2 - 1) rf[k2 - 1] r (by simp) (by rw [show k2 - 1 + 1 = k2 by omega]; exact hr)
+    omega
+  · have : k2 = k1 := by omega
+    subst this; exact hf1 r hr
+
+theorem tiles_lt {rf : Array Range} {hi : Nat} (ht : Tiles rf hi) :
+    ∀ (d k : Nat) (r r' : Range), rf[k]? = some r → rf[k + 1 + d]? = some r' → r.last < r'.first := by
+  intro d
+  induction d with
+  | zero => intro k r r' h h'; have := ht.contiguous k r r' h h'; omega
+  | succ d ih =>
+    intro k r r' h h'
+    have hs : k + 1 + d < rf.size := by
+      have : k + 1 + (d + 1) < rf.size := by
+        by_cases hlt : k + 1 + (d + 1) < rf.size
+        · exact hlt
+        · simp [Array.getElem?_eq_none (by omega : rf.size ≤ k + 1 + (d + 1))] at h'
+      omega
+    have hm : rf[k + 1 + d]? = some rf[k + 1 + d] := by simp [hs]
+    have h1 := ih k r rf[k + 1 + d] h hm
+    have h2 := ht.contiguous (k + 1 + d) _ r' hm h'
+    have h3 := ht.ordered _ _ hm
+    omega
+
+/-- the range that contains a cluster is unique -/
+theorem tiles_unique {rf : Array Range} {hi : Nat} (ht : Tiles rf hi) (c k k' : Nat) (r r' : Range)
+    (h : rf[k]? = some r) (h' : rf[k']? = some r') (hc : r.first ≤ c ∧ c ≤ r.last)
+    (hc' : r'.first ≤ c ∧ c ≤ r'.last) : k = k' := by
+  rcases Nat.lt_trichotomy k k' with hlt | heq | hgt
+  · have := tiles_lt ht (k' - k - 1) k r r' h (by rw [show k + 1 + (k' - k - 1) = k' by omega]; exact h')
+    omega
+  · exact heq
+  · have := tiles_lt ht (k - k' - 1) k' r' r h' (by rw [show k' + 1 + (k - k' - 1) = k by omega]; exact h)
+    omega
+
+/-- "the range of this cluster switches the subtable on" -/
+def enabledAt (rf : Array Range) (sf c : Nat) : Bool :=
+  rf.any (fun r => decide (r.first ≤ c) && decide (c ≤ r.last) && (r.flags &&& sf != 0))
+
+theorem enabledAt_eq {rf : Array Range} {hi : Nat} (ht : Tiles rf hi) (sf c k : Nat) (r : Range)
+    (h : rf[k]? = some r) (hc : r.first ≤ c ∧ c ≤ r.last) :
+    enabledAt rf sf c = (r.flags &&& sf != 0) := by
+  unfold enabledAt
+  by_cases hf : (r.flags &&& sf != 0) = true
+  · rw [hf, Array.any_eq_true]
+    have hk : k < rf.size := by
+      by_cases hlt : k < rf.size
+      · exact hlt
+      · simp [Array.getElem?_eq_none (by omega : rf.size ≤ k)] at h
+    refine ⟨k, hk, ?_⟩
+    have : rf[k] = r := by simp [hk] at h; exact h
+    simp [this, hc.1, hc.2, hf]
+  · have hf' : (r.flags &&& sf != 0) = false := by simpa using hf
+    rw [hf', Array.any_eq_false]
+    intro k' hk'
+    by_cases hcc : rf[k'].first ≤ c ∧ c ≤ rf[k'].last
+    · have := tiles_unique ht c k k' r rf[k'] h (by simp [hk']) hc hcc
+      subst this
+      have : rf[k] = r := by simp [hk'] at h; exact h
+      simp [this, hf']
+    · intro h1
+      simp only [Bool.and_eq_true, decide_eq_true_eq] at h1
+      exact hcc ⟨h1.1.1, h1.1.2⟩
+
+/-- what the non-contextual subtable does to one record -/
+def ncMap (lk : Lookup) (on : Bool) (g : G) : G :=
+  if on then { g with gid := (lk (glyph16 g.gid)).getD g.gid } else g
+
+theorem nc_loop_ranges (lk : Lookup) (rf : Array Range) (sf hi : Nat) (b : Buf) (ht : Tiles rf hi)
+    (hcl : ∀ (i : Nat) (g : G), i < b.len → b.info[i]? = some g → g.cl ≤ hi) :
+    ∀ n, n ≤ b.len → n ≤ b.info.size → ∀ lr0, lr0 < rf.size →
+      ∃ info' lr, forUp n (ncStep lk rf sf) (b, some lr0) = .ok ({ b with info := info' }, some lr) ∧
+        lr < rf.size ∧ info'.size = b.info.size ∧
+        ∀ i, info'[i]? = if i < n then (b.info[i]?).map (fun g => ncMap lk (enabledAt rf sf g.cl) g)
+                         else b.info[i]? := by
+  intro n
+  induction n with
+  | zero => intro _ _ lr0 h0; exact ⟨b.info, lr0, rfl, h0, rfl, by intro i; simp⟩
+  | succ n ih =>
+    intro hn hsz lr0 h0
+    obtain ⟨info1, lr1, e1, hl1, s1, k1⟩ := ih (by omega) (by omega) lr0 h0
+    have hlt : n < info1.size := by omega
+    have hltb : n < b.info.size := by omega
+    have hg : info1[n]? = b.info[n]? := by rw [k1, if_neg (by omega)]
+    have hg2 : b.info[n]? = some (b.info[n]'hltb) := by simp
+    have hrd : rd info1 n = .ok (b.info[n]'hltb) := by
+      rw [rd_ok hlt]; congr 1
+      have : some info1[n] = some (b.info[n]'hltb) := by rw [← hg2, ← hg]; simp [hlt]
+      exact Option.some.inj this
+    have hc := hcl n _ (by omega) hg2
+    obtain ⟨k, ek, hk, hkc⟩ := findRange_spec ht (b.info[n]'hltb).cl hc lr1 hl1
+    have hen := enabledAt_eq ht sf (b.info[n]'hltb).cl k rf[k] (by simp [hk]) (hkc rf[k] (by simp [hk]))
+    simp only [forUp, e1, bind, Except.bind, ncStep, ncRange, hrd, ek, rdR_ok hk, pure, Except.pure]
+    by_cases hoff : (rf[k].flags &&& sf == 0) = true
+    · -- switched off: nothing happens
+      have hen' : enabledAt rf sf (b.info[n]'hltb).cl = false := by
+        rw [hen]; simp only [bne, hoff, Bool.not_true]
+      simp only [hoff, if_true]
+      refine ⟨info1, k, rfl, hk, s1, ?_⟩
+      intro i; rw [k1]
+      by_cases h : i < n
+      · rw [if_pos h, if_pos (by omega)]
+      · by_cases h2 : i = n
+        · subst h2; rw [if_neg h, if_pos (by omega), hg2]; simp [ncMap, hen']
+        · rw [if_neg h, if_neg (by omega)]
+    · have hen' : enabledAt rf sf (b.info[n]'hltb).cl = true := by
+        rw [hen]; simp only [bne]; simpa using hoff
+      simp only [hoff, Bool.false_eq_true, if_false]
+      cases hl : lk (glyph16 (b.info[n]'hltb).gid) with
+      | none =>
+        refine ⟨info1, k, rfl, hk, s1, ?_⟩
+        intro i; rw [k1]
+        by_cases h : i < n
+        · rw [if_pos h, if_pos (by omega)]
+        · by_cases h2 : i = n
+          · subst h2; rw [if_neg h, if_pos (by omega), hg2]; simp [ncMap, hen', hl]
+          · rw [if_neg h, if_neg (by omega)]
+      | some v =>
+        simp only [wr_ok hlt]
+        refine ⟨info1.set n { b.info[n]'hltb with gid := v } hlt, k, rfl, hk, by simp [s1], ?_⟩
+        intro i; rw [Array.getElem?_set]
+        by_cases h2 : n = i
+        · subst h2; rw [if_pos rfl, if_pos (by omega), hg2]; simp [ncMap, hen', hl]
+        · rw [if_neg h2, k1]
+          by_cases h : i < n
+          · rw [if_pos h, if_pos (by omega)]
+          · rw [if_neg h, if_neg (by omega)]
 
 end
 end RbModel.Morx
